@@ -113,7 +113,11 @@ func mathFrexp(L *LState) int {
 }
 
 func mathLdexp(L *LState) int {
-	L.Push(LNumber(math.Ldexp(float64(L.CheckNumber(1)), L.CheckInt(2))))
+	// the exponent is clamped before it becomes an int: 2^63 would wrap, and beyond +-2098 no
+	// finite result changes any more (2^-1074 * 2^e overflows, 2^1024 * 2^-e underflows)
+	m := float64(L.CheckNumber(1))
+	e := math.Max(-(1 << 20), math.Min(1<<20, float64(L.CheckNumber(2))))
+	L.Push(LNumber(math.Ldexp(m, int(e))))
 	return 1
 }
 
